@@ -686,3 +686,92 @@ func extTimeNow(fr *frame, a []value) value {
 	p.assume(c)
 	return structure{uint64(0), sym{t, types.Int64}, (*value)(nil)}
 }
+
+// ---- deep copy (mitchellh/copystructure.Copy is reflection-heavy) -----------------
+
+func init() {
+	externals["github.com/mitchellh/copystructure.Copy"] = func(fr *frame, a []value) value {
+		stubHit(fr, "copystructure.Copy")
+		in := a[0].(iface)
+		if in.t == nil {
+			return tuple{iface{}, iface{}}
+		}
+		return tuple{iface{in.t, deepCopy(in.t, in.v, map[*value]*value{}, 0)}, iface{}}
+	}
+}
+
+func deepCopy(t types.Type, v value, memo map[*value]*value, depth int) value {
+	if depth > 100 {
+		panic(unsupported{"deep copy: too deep"})
+	}
+	switch tt := t.Underlying().(type) {
+	case *types.Pointer:
+		p := v.(*value)
+		if p == nil {
+			return p
+		}
+		if np, ok := memo[p]; ok {
+			return np
+		}
+		np := new(value)
+		memo[p] = np
+		*np = deepCopy(tt.Elem(), *p, memo, depth+1)
+		return np
+	case *types.Struct:
+		s, ok := v.(structure)
+		if !ok {
+			return v
+		}
+		out := make(structure, len(s))
+		for k := range s {
+			out[k] = deepCopy(tt.Field(k).Type(), s[k], memo, depth+1)
+		}
+		return out
+	case *types.Array:
+		s := v.(array)
+		out := make(array, len(s))
+		for k := range s {
+			out[k] = deepCopy(tt.Elem(), s[k], memo, depth+1)
+		}
+		return out
+	case *types.Slice:
+		s := v.([]value)
+		if s == nil {
+			return s
+		}
+		out := make([]value, len(s))
+		for k := range s {
+			out[k] = deepCopy(tt.Elem(), s[k], memo, depth+1)
+		}
+		return out
+	case *types.Map:
+		m := v.(*omap)
+		if m == nil {
+			return m
+		}
+		out := newOMap(tt.Key())
+		for _, e := range m.entries {
+			if e.deleted {
+				continue
+			}
+			k := deepCopy(tt.Key(), e.key, memo, depth+1)
+			ks, conc := keyString(k)
+			ne := &mapEntry{key: k, val: deepCopy(tt.Elem(), e.val, memo, depth+1), conc: conc}
+			out.entries = append(out.entries, ne)
+			if conc {
+				out.idx[ks] = len(out.entries) - 1
+			} else {
+				out.nsym++
+			}
+			out.live++
+		}
+		return out
+	case *types.Interface:
+		i := v.(iface)
+		if i.t == nil {
+			return i
+		}
+		return iface{i.t, deepCopy(i.t, i.v, memo, depth+1)}
+	}
+	return v
+}
